@@ -19,6 +19,10 @@ def _canon(v, depth, ids):
     if isinstance(v, _WEAK):
         # contents follow the garbage collector, not the calls: never compared
         return ["weak", type(v).__name__]
+    if getattr(type(v), "_leaguesim_opaque", False):
+        # a harness-owned object handed to the library (a stateful gamma callback): its own
+        # bookkeeping is not model state
+        return ["harness", type(v).__name__] + ([id(v)] if ids else [])
     if v is None or isinstance(v, (bool, int, str, bytes)):
         return [type(v).__name__, v if not isinstance(v, bytes) else v.hex()]
     if isinstance(v, float):
@@ -183,7 +187,7 @@ def ref_rate(cfg, snap, kw, prefix="iso", tau=None, limit_sigma=None, stats=None
     """The same rate call on a fresh model and fresh ratings. -> ('ok', enc) | ('exc', name).
     `warm`: the fresh model first serves an unrelated game, so that the compared call is not
     always the FIRST call of a model's life."""
-    m = build_model(cfg, tau=tau, limit_sigma=limit_sigma, lib=lib)
+    m = build_model(cfg, tau=tau, limit_sigma=limit_sigma, lib=lib, reference=True)
     if warm:
         try:
             m.rate([[m.rating()], [m.rating(), m.rating()], [m.rating()]], ranks=[2, 1, 2])
@@ -199,7 +203,7 @@ def ref_rate(cfg, snap, kw, prefix="iso", tau=None, limit_sigma=None, stats=None
 
 
 def ref_predict(cfg, snap, kind, prefix="iso", stats=None, lib=None, ids=None):
-    m = build_model(cfg, lib=lib)
+    m = build_model(cfg, lib=lib, reference=True)
     teams = rebuild(m, snap, prefix, stats, ids)
     try:
         res = do_predict(m, kind, teams)
